@@ -34,9 +34,24 @@ def check_config(cfg, w, rep):
         if not chk or strip_refs(lf.outer.impl_self or "") in rtypes:
             continue
         body = lf.body
-        mats = []   # blocks where materialisation happens (own effect or local callee reaching one)
+        mats = []   # blocks where the destination is created / written (own effect or local callee reaching one)
+        pl = w.path_like_params(lf)
+        dest_i = pl[-1] if len(pl) >= 2 else None
+
+        def touches_dest(e, owner):
+            if e.kind in MATERIALISE:
+                return True
+            if not e.mutating:
+                return False
+            for role, c in e.classes.items():
+                cur = c
+                while cur[0] in ("Handle", "Parent"):
+                    cur = cur[1]
+                if cur[0] == "Param" and cur[1] == owner.path and dest_i is not None and cur[2] == dest_i and e.kind != "RemoveFile":
+                    return True
+            return False
         for e in w.own_effects(lf):
-            if e.kind in MATERIALISE and e.body is body:
+            if e.body is body and touches_dest(e, lf):
                 mats.append((e.blk, e.kind, e.loc()))
         for b, blk, t, g in prog.local_calls(lf):
             if b is body and any(True for _ in materialising(w, g)):
